@@ -42,11 +42,15 @@ func (*floatScalar) CoerceIn(v interface{}) (interface{}, error) {
 	case nil:
 		// remains nil
 	case float64:
-		if math.MaxFloat32 < tv || tv < -math.MaxFloat32 {
-			// Does not fit in a float32, it would become +Inf or -Inf.
+		// Does it fit in a float32 or would it become +Inf or -Inf? Looked at
+		// after rounding: the shortest text of the largest float32,
+		// 3.4028235e+38 as the printer writes it, is a little more than
+		// math.MaxFloat32 as a float64 and still that float32.
+		f := float32(tv)
+		if math.IsInf(float64(f), 0) {
 			return nil, newCoerceErr(tv, "Float")
 		}
-		v = float32(tv)
+		v = f
 	case float32:
 		// ok as is
 	case int32:
